@@ -414,7 +414,11 @@ func (g *G) call(t grl.Type, depth int) *grl.Expr {
 
 // natural returns a boolean expression that fails to evaluate on most fact states.
 func (g *G) natural() *grl.Expr {
-	switch g.R.Intn(6) {
+	switch g.R.Intn(8) {
+	case 6:
+		return grl.Bin("==", &grl.Expr{K: "call", Path: grl.P(g.R.PickStr("F", "G")), Fn: "Boom", Args: []*grl.Expr{lit(1)}}, lit(1)) // user method panics with a string
+	case 7:
+		return grl.Bin("==", &grl.Expr{K: "call", Path: grl.P(g.R.PickStr("F", "G")), Fn: "BoomErr", Args: []*grl.Expr{lit(2)}}, lit(1)) // user method panics with an error value
 	case 0:
 		return grl.Bin("==", grl.PathE(grl.P("F.A").Idx(lit(g.R.PickInt64(3, 7, 99)))), lit(1)) // index out of range
 	case 1:
